@@ -17,4 +17,6 @@ def run_v2_table(ctx, R, pid, rule):
     opaque_free(R, rule, p, outs)
     rows = v2parse.rows_for(inp, pid)
     check_rows(R, rule, p, outs, rows)
+    if pid in ('C02', 'C04', 'C17'):
+        no_panic_gaps(R, rule, ev, p)
     return p, inp, outs
